@@ -21,20 +21,65 @@ from __future__ import annotations
 
 from fractions import Fraction
 
-ONE = ()
+BITS = 10
+MASK = (1 << BITS) - 1
+ONE = 0
 
-RADICAND: dict = {}     # sqrt atom -> Rat
+ATOMS: list = []        # index -> atom name
+ATOM_ID: dict = {}      # atom name -> index
+RADICAND: dict = {}     # sqrt-like atom -> Rat   (atom**2 == RADICAND[atom]); use set_relation()
+_REDUCIBLE: set = set()  # indices of atoms that carry a relation
+
+
+def atom_id(a: str) -> int:
+    i = ATOM_ID.get(a)
+    if i is None:
+        i = len(ATOMS)
+        ATOMS.append(a)
+        ATOM_ID[a] = i
+        if a.startswith("sin(") or a in RADICAND:
+            _REDUCIBLE.add(i)
+    return i
+
+
+def set_relation(atom: str, radicand) -> None:
+    """declare atom**2 == radicand (a Rat)"""
+    RADICAND[atom] = radicand
+    _REDUCIBLE.add(atom_id(atom))
+
+
+def clear_relation(atom: str) -> None:
+    RADICAND.pop(atom, None)
+    _REDUCIBLE.discard(atom_id(atom))
+
+
+def mono_items(m: int):
+    """packed monomial -> [(atom name, exponent)] sorted by atom name"""
+    out = []
+    i = 0
+    while m:
+        e = m & MASK
+        if e:
+            out.append((ATOMS[i], e))
+        m >>= BITS
+        i += 1
+    out.sort()
+    return out
+
+
+def mono_of(items) -> int:
+    m = 0
+    for a, e in items:
+        m += e << (BITS * atom_id(a))
+    return m
+
+
+def mono_exp(m: int, idx: int) -> int:
+    return (m >> (BITS * idx)) & MASK
 
 
 def _mono_mul(m1, m2):
-    if not m1:
-        return m2
-    if not m2:
-        return m1
-    d = dict(m1)
-    for a, e in m2:
-        d[a] = d.get(a, 0) + e
-    return tuple(sorted((a, e) for a, e in d.items() if e))
+    return m1 + m2
 
 
 def p_const(c):
@@ -43,7 +88,7 @@ def p_const(c):
 
 
 def p_atom(a):
-    return {((a, 1),): Fraction(1)}
+    return {1 << (BITS * atom_id(a)): Fraction(1)}
 
 
 def p_add(p, q, cq=1):
@@ -57,17 +102,44 @@ def p_add(p, q, cq=1):
     return r
 
 
+def _to_int_poly(p):
+    """-> (list of (mono, int coeff), common denominator)"""
+    den = 1
+    for c in p.values():
+        d = c.denominator
+        if d != 1 and den % d:
+            from math import gcd
+            den = den * d // gcd(den, d)
+    if den == 1:
+        return [(m, c.numerator) for m, c in p.items()], 1
+    return [(m, c.numerator * (den // c.denominator)) for m, c in p.items()], den
+
+
 def p_mul(p, q):
+    if not p or not q:
+        return {}
+    if len(p) == 1:
+        (m1, c1), = p.items()
+        if m1 == ONE and c1 == 1:
+            return dict(q)
+        return {m1 + m2: c1 * c2 for m2, c2 in q.items()}
+    if len(q) == 1:
+        (m2, c2), = q.items()
+        if m2 == ONE and c2 == 1:
+            return dict(p)
+        return {m1 + m2: c1 * c2 for m1, c1 in p.items()}
+    ip, dp = _to_int_poly(p)
+    iq, dq = _to_int_poly(q)
     r = {}
-    for m1, c1 in p.items():
-        for m2, c2 in q.items():
-            m = _mono_mul(m1, m2)
-            v = r.get(m, 0) + c1 * c2
-            if v:
-                r[m] = v
-            else:
-                r.pop(m, None)
-    return r
+    get = r.get
+    for m1, c1 in ip:
+        for m2, c2 in iq:
+            m = m1 + m2
+            r[m] = get(m, 0) + c1 * c2
+    d = dp * dq
+    if d == 1:
+        return {m: Fraction(v) for m, v in r.items() if v}
+    return {m: Fraction(v, d) for m, v in r.items() if v}
 
 
 def p_scale(p, c):
@@ -93,13 +165,13 @@ def p_const_value(p):
 def p_atoms(p):
     s = set()
     for m in p:
-        for a, e in m:
-            s.add(a)
+        i = 0
+        while m:
+            if m & MASK:
+                s.add(ATOMS[i])
+            m >>= BITS
+            i += 1
     return s
-
-
-def _reducible(atom):
-    return atom.startswith("sin(") or atom in RADICAND
 
 
 def _relation(atom):
@@ -111,49 +183,61 @@ def _relation(atom):
     return (r.num, r.den)
 
 
+def _find_target(p):
+    """index of a relation atom occurring with exponent >= 2, or None"""
+    if not _REDUCIBLE:
+        return None
+    shifts = [(i, BITS * i) for i in _REDUCIBLE]
+    for m in p:
+        if m:
+            for i, sh in shifts:
+                if (m >> sh) & MASK >= 2:
+                    return i
+    return None
+
+
 def p_reduce(p):
     """polynomial -> (num, den) with every relation atom at exponent <= 1"""
     num, den = p, p_const(1)
-    for _ in range(64):
-        target = None
-        for m in num:
-            for a, e in m:
-                if e >= 2 and _reducible(a):
-                    target = a
-                    break
-            if target:
-                break
-        if target is None:
+    for _ in range(200):
+        ti = _find_target(num)
+        if ti is None:
             return num, den
+        target = ATOMS[ti]
+        sh = BITS * ti
         rn, rd = _relation(target)
-        # num = sum_k c_k * s^k ;  s^(2j) = (rn/rd)^j
         maxj = 0
         parts = []
         for m, c in num.items():
-            e = 0
-            rest = []
-            for a, ex in m:
-                if a == target:
-                    e = ex
-                else:
-                    rest.append((a, ex))
-            parts.append((tuple(rest), e, c))
-            maxj = max(maxj, e // 2)
-        new = {}
+            e = (m >> sh) & MASK
+            rest = m - (e << sh)
+            parts.append((rest, e, c))
+            if e // 2 > maxj:
+                maxj = e // 2
         rn_pows = [p_const(1)]
         rd_pows = [p_const(1)]
         for j in range(maxj):
             rn_pows.append(p_mul(rn_pows[-1], rn))
             rd_pows.append(p_mul(rd_pows[-1], rd))
+        # group the parts by (j, parity) so that each power is multiplied once
+        groups = {}
         for rest, e, c in parts:
-            j = e // 2
-            base = {rest: c}
-            if e % 2:
-                base = p_mul(base, p_atom(target))
-            term = p_mul(p_mul(base, rn_pows[j]), rd_pows[maxj - j])
+            key = (e // 2, e % 2)
+            g = groups.setdefault(key, {})
+            mm = rest + ((1 << sh) if e % 2 else 0)
+            g[mm] = g.get(mm, 0) + c
+        new = {}
+        rd_const = p_is_const(rd)
+        for (j, par), g in groups.items():
+            term = g
+            if j:
+                term = p_mul(term, rn_pows[j])
+            if maxj - j and not (rd_const and p_const_value(rd) == 1):
+                term = p_mul(term, rd_pows[maxj - j])
             new = p_add(new, term)
         num = new
-        den = p_mul(den, rd_pows[maxj])
+        if not (rd_const and p_const_value(rd) == 1):
+            den = p_mul(den, rd_pows[maxj])
     raise RuntimeError("reduction did not terminate")
 
 
@@ -162,33 +246,51 @@ def _cancel_monomial_content(num, den):
     common = None
     for p in (num, den):
         for m in p:
-            d = dict(m)
             if common is None:
-                common = d
+                common = {}
+                mm, i = m, 0
+                while mm:
+                    e = mm & MASK
+                    if e:
+                        common[i] = e
+                    mm >>= BITS
+                    i += 1
             else:
-                common = {a: min(e, d[a]) for a, e in common.items() if a in d}
+                for i in list(common):
+                    e = (m >> (BITS * i)) & MASK
+                    if e < common[i]:
+                        if e:
+                            common[i] = e
+                        else:
+                            del common[i]
             if not common:
                 return num, den
     if not common:
         return num, den
-
-    def div(p):
-        out = {}
-        for m, c in p.items():
-            d = dict(m)
-            for a, e in common.items():
-                d[a] -= e
-            out[tuple(sorted((a, e) for a, e in d.items() if e))] = c
-        return out
-    return div(num), div(den)
+    g = 0
+    for i, e in common.items():
+        g += e << (BITS * i)
+    return {m - g: c for m, c in num.items()}, {m - g: c for m, c in den.items()}
 
 
 def _needs_reduce(p):
-    for m in p:
-        for a, e in m:
-            if e >= 2 and _reducible(a):
-                return True
-    return False
+    return _find_target(p) is not None
+
+
+def _proportional(num, den):
+    """num == k * den for a rational k -> k, else None"""
+    if len(num) != len(den):
+        return None
+    k = None
+    for m, c in num.items():
+        d = den.get(m)
+        if d is None:
+            return None
+        if k is None:
+            k = c / d
+        elif c != k * d:
+            return None
+    return k
 
 
 class Rat:
@@ -215,7 +317,11 @@ class Rat:
         if not num:
             den = p_const(1)
         elif not p_is_const(den):
-            num, den = _cancel_monomial_content(num, den)
+            k = _proportional(num, den)
+            if k is not None:
+                num, den = p_const(k), p_const(1)
+            else:
+                num, den = _cancel_monomial_content(num, den)
         if p_is_const(den):
             c = p_const_value(den)
             if c != 1:
@@ -301,7 +407,7 @@ class Rat:
             tot = Rat.const(0)
             for m, c in p.items():
                 t = Rat.const(c)
-                for a, e in m:
+                for a, e in mono_items(m):
                     v = mapping.get(a)
                     if v is None:
                         v = Rat.atom(a)
@@ -315,7 +421,7 @@ class Rat:
         denominator is made monic in its first monomial)"""
         num, den = self.num, self.den
         if not p_is_const(den):
-            lead = den[sorted(den)[0]]
+            lead = den[_sorted_monos(den)[0]]
             if lead != 1:
                 num = p_scale(num, 1 / lead)
                 den = p_scale(den, 1 / lead)
@@ -326,13 +432,17 @@ class Rat:
         return self.key()
 
 
+def _sorted_monos(p):
+    return sorted(p, key=lambda m: mono_items(m))
+
+
 def p_str(p):
     if not p:
         return "0"
     parts = []
-    for m in sorted(p):
+    for m in _sorted_monos(p):
         c = p[m]
-        mon = "*".join(a if e == 1 else "%s^%d" % (a, e) for a, e in m)
+        mon = "*".join(a if e == 1 else "%s^%d" % (a, e) for a, e in mono_items(m))
         if not mon:
             parts.append(str(c))
         elif c == 1:
@@ -372,13 +482,22 @@ def _frac_gcd(a: Fraction, b: Fraction) -> Fraction:
                     a.denominator * b.denominator)
 
 
-def p_content(p, scale_atoms=("pi",)):
+POSITIVE_SCALE_ATOMS = ["pi"]      # atoms known positive whose even powers may leave a square root
+
+
+def p_content(p, scale_atoms=None):
     """(positive rational content, {scale atom: min exponent}) of a polynomial"""
+    scale_atoms = POSITIVE_SCALE_ATOMS if scale_atoms is None else scale_atoms
     c = Fraction(0)
+    ids = [(a, BITS * atom_id(a)) for a in scale_atoms]
     exps = None
     for m, v in p.items():
         c = _frac_gcd(c, v)
-        d = {a: e for a, e in m if a in scale_atoms}
+        d = {}
+        for a, sh in ids:
+            e = (m >> sh) & MASK
+            if e:
+                d[a] = e
         if exps is None:
             exps = d
         else:
@@ -387,28 +506,38 @@ def p_content(p, scale_atoms=("pi",)):
 
 
 def split_content(r: "Rat"):
-    """r = content * primitive, content = q * pi^k (q > 0 rational)"""
+    """r = content * primitive, content = q * prod(positive scale atoms ^ k) with q > 0 rational.
+    returns (content Rat, q, {atom: k}, primitive)"""
     cn, en = p_content(r.num)
     cd, ed = p_content(r.den)
     q = cn / cd
-    k = en.get("pi", 0) - ed.get("pi", 0)
-    content = Rat.const(q) * (Rat.atom("pi") ** k if k else Rat.const(1))
-    return content, q, k, r / content
+    ks = {}
+    for a in set(en) | set(ed):
+        k = en.get(a, 0) - ed.get(a, 0)
+        if k:
+            ks[a] = k
+    content = Rat.const(q)
+    for a, k in ks.items():
+        content = content * (Rat.atom(a) ** k)
+    return content, q, ks, r / content
 
 
 def sqrt_of(r: Rat) -> Rat:
     """square root as an atom with relation atom^2 = r.  Positive content that
-    is a perfect square (rational squares, even powers of pi) is pulled out;
-    a radicand equal (as a normal form) to an earlier one reuses that atom."""
+    is a perfect square (rational squares, even powers of the positive scale
+    atoms) is pulled out; a radicand equal (as a normal form) to an earlier one
+    reuses that atom."""
     from math import isqrt
     r = as_rat(r)
     if r.is_zero():
         return Rat.const(0)
-    content, q, k, prim = split_content(r)
+    content, q, ks, prim = split_content(r)
     n, d = q.numerator, q.denominator
     outside = Rat.const(1)
-    if isqrt(n) ** 2 == n and isqrt(d) ** 2 == d and k % 2 == 0:
-        outside = Rat.const(Fraction(isqrt(n), isqrt(d))) * (Rat.atom("pi") ** (k // 2) if k else Rat.const(1))
+    if isqrt(n) ** 2 == n and isqrt(d) ** 2 == d and all(k % 2 == 0 for k in ks.values()):
+        outside = Rat.const(Fraction(isqrt(n), isqrt(d)))
+        for a, k in ks.items():
+            outside = outside * (Rat.atom(a) ** (k // 2))
         r = prim
     if r.is_const():
         v = r.const_value()
@@ -419,10 +548,10 @@ def sqrt_of(r: Rat) -> Rat:
             if isqrt(n) ** 2 == n and isqrt(d) ** 2 == d:
                 return outside * Rat.const(Fraction(isqrt(n), isqrt(d)))
     for a, rad in RADICAND.items():
-        if rad.equals(r):
+        if a.startswith("sqrt(") and rad.equals(r):
             return outside * Rat.atom(a)
     a = "sqrt(%s)" % r.key()
-    RADICAND[a] = r
+    set_relation(a, r)
     return outside * Rat.atom(a)
 
 
@@ -438,8 +567,16 @@ def func_atom(name: str, *args) -> Rat:
 
 def atom_info(r: Rat):
     """if r is exactly one function atom -> (name, args) else None"""
-    if len(r.num) == 1 and p_is_const(r.den):
+    a = single_atom(r)
+    return ATOM_ARGS.get(a) if a is not None else None
+
+
+def single_atom(r: Rat):
+    """if r is exactly one atom (coefficient 1, exponent 1) -> its name else None"""
+    if len(r.num) == 1 and p_is_const(r.den) and p_const_value(r.den) == 1:
         (m, c), = r.num.items()
-        if c == 1 and len(m) == 1 and m[0][1] == 1:
-            return ATOM_ARGS.get(m[0][0])
+        if c == 1:
+            it = mono_items(m)
+            if len(it) == 1 and it[0][1] == 1:
+                return it[0][0]
     return None
